@@ -28,6 +28,18 @@
 (*   [op |-> "print", g, k]   out = out ++ <<g>>       print a             *)
 (*   [op |-> "rand",  g, k]   out = out ++ <<next random number>>          print int(rand() * 1000000)     *)
 (*   [op |-> "srand", g, k]   out = out ++ <<previous seed>>; seed = consts[k]     print srand(7)          *)
+(* Instructions that START A COMMAND (through the shell, /bin/sh -c):       *)
+(*   [op |-> "system",     g, k]   out = out ++ <<what the command prints>>        system("echo " id)          *)
+(*   [op |-> "cmdgetline", g, k]   g = the line the command prints; the stream     ("echo " id) | getline a    *)
+(*                            stays open: reading it again is end-of-file, g unchanged                       *)
+(*   [op |-> "printcmd",   g, k]   out = out ++ <<what the command prints, g>>     print a | ("echo " id "; read v; echo $v"); close(...)  *)
+(*   [op |-> "close",      g, k]   the reader stream of the command is closed      close("echo " id)           *)
+(* The COMMAND STRING is private state of the interpreter: interp[i].cmd,  *)
+(* different for every process (CmdOf(i); the real executions get it as     *)
+(* the variable id of Config.Vars, the command is `echo <id>`, it prints    *)
+(* CmdVal(cmd)).  Starting a command takes two steps: the argument vector   *)
+(* (shell, "-c", command string) is built, then the process is started with *)
+(* it.  The vector is private too (interp[i].argv).                         *)
 (* Every program ends with  print a; print b  (appended by Code).          *)
 (*                                                                         *)
 (* Random numbers are not computed: the n-th number after seeding with s   *)
@@ -55,7 +67,7 @@
 (***************************************************************************)
 EXTENDS Integers, Sequences, FiniteSets, TLC
 
-CONSTANTS NProc, SharedCache, ReuseInterp, MaxRuns
+CONSTANTS NProc, SharedCache, ReuseInterp, SharedShellArgs, MaxRuns
 
 Consts  == <<0, 1, 7, 10>>            \* program.Compiled.Nums
 NumRegex == 3                         \* program.Compiled.Regexes: /^1/, /0$/ and /1|10/
@@ -82,6 +94,13 @@ RandTok(sc, n) == 10000 + 100 * sc + n
 Seed0Tok == 20000
 IsToken(v) == v >= 10000
 
+\* the command string of process i (0: an execution running alone) and what the command `echo <id>` prints
+CmdOf(i) == i
+CmdVal(c) == 100 + c
+CmdOps == {"system", "cmdgetline", "printcmd"}
+\* process-level state outside the program and outside every interpreter: the one argument vector of the slip
+NoShell == [args |-> 0]
+
 \* the execution interface process i uses (the model does not distinguish them)
 ApiOf(i) == CASE i % 3 = 1 -> "new-execute" [] i % 3 = 2 -> "execprogram" [] OTHER -> "new-executecontext"
 
@@ -93,14 +112,19 @@ MkProgram(body) == [code |-> Code(body), consts |-> Consts,
                     regexes |-> [r \in 1..NumRegex |-> [src |-> r, longest |-> ~SharedCache]],
                     cache |-> [r \in 1..NumRegex |-> [valid |-> FALSE, arg |-> 0, res |-> 0]]]
 
-\* rc: sources compiled at run time (private cache); sc, nr: seed code and numbers drawn since seeding
-NewInterp == [status |-> "run", pc |-> 1, g |-> <<0, 0>>, out |-> <<>>, rc |-> {}, sc |-> 0, nr |-> 0]
-NoInterp  == [status |-> "none", pc |-> 0, g |-> <<0, 0>>, out |-> <<>>, rc |-> {}, sc |-> 0, nr |-> 0]
+\* rc: sources compiled at run time (private cache); sc, nr: seed code and numbers drawn since seeding;
+\* cmd: the command string; argv, ph: the argument vector of the command being started (ph = 1: built, not yet started);
+\* rd: the reader stream of the command ("closed", or "eof": open and read to its end)
+NewInterp == [status |-> "run", pc |-> 1, g |-> <<0, 0>>, out |-> <<>>, rc |-> {}, sc |-> 0, nr |-> 0,
+              cmd |-> CmdOf(0), argv |-> 0, ph |-> 0, rd |-> "closed"]
+NoInterp  == [status |-> "none", pc |-> 0, g |-> <<0, 0>>, out |-> <<>>, rc |-> {}, sc |-> 0, nr |-> 0,
+              cmd |-> CmdOf(0), argv |-> 0, ph |-> 0, rd |-> "closed"]
 
 PLoc(table, idx)   == <<"prog", table, idx>>
 ILoc(i, part, idx) == <<"interp", i, part, idx>>
+ShLoc              == <<"proc", "shellargs", 0>>
 
-\* One instruction of interpreter state `it` (of process i) over program pr:
+\* One instruction that starts no command, of interpreter state `it` (of process i) over program pr:
 \* returns [it, pr, reads, writes]
 Exec1(pr, it, i) ==
   LET ins == pr.code[it.pc]
@@ -151,21 +175,61 @@ Exec1(pr, it, i) ==
                   reads |-> rd0 \cup {PLoc("regexes", ins.k), ILoc(i, "g", ins.g)},
                   writes |-> {ILoc(i, "g", ins.g), ILoc(i, "pc", 0)}]
 
-\* running alone, on a pristine program
-RECURSIVE SoloRun(_, _)
-SoloRun(pr, it) == IF it.status = "done" THEN it ELSE LET e == Exec1(pr, it, 0) IN SoloRun(e.pr, e.it)
-Solo(body) == SoloRun(MkProgram(body), NewInterp)
+\* One step of interpreter state `it` (of process i) over program pr and process-level state sh -- one instruction,
+\* or one of the two steps of an instruction that starts a command:  returns [it, pr, sh, reads, writes]
+ExecP(pr, sh, it, i) ==
+  LET ins == pr.code[it.pc]
+      rd0 == {PLoc("code", it.pc), ILoc(i, "pc", 0)}
+      nxt(it2) == [it2 EXCEPT !.pc = @ + 1, !.status = IF it.pc = Len(pr.code) THEN "done" ELSE "run"]
+      gv  == it.g[ins.g]
+      \* the command string the process is started with: the private vector -- or what the shared location holds NOW
+      cs  == IF SharedShellArgs THEN sh.args ELSE it.argv
+      arl == IF SharedShellArgs THEN ShLoc ELSE ILoc(i, "argv", 0)
+  IN CASE ins.op \in CmdOps /\ it.ph = 0 /\ ~(ins.op = "cmdgetline" /\ it.rd = "eof") ->
+            \* step 1: build the argument vector
+            [it |-> [it EXCEPT !.ph = 1, !.argv = IF SharedShellArgs THEN @ ELSE it.cmd], pr |-> pr,
+             sh |-> IF SharedShellArgs THEN [sh EXCEPT !.args = it.cmd] ELSE sh,
+             reads |-> rd0 \cup {ILoc(i, "cmd", 0)}, writes |-> {arl, ILoc(i, "ph", 0)}]
+       [] ins.op = "system" ->
+            \* step 2: start the process; what it prints goes to the output of the execution
+            [it |-> nxt([it EXCEPT !.out = Append(@, CmdVal(cs)), !.ph = 0]), pr |-> pr, sh |-> sh,
+             reads |-> rd0 \cup {arl}, writes |-> {ILoc(i, "out", 0), ILoc(i, "ph", 0), ILoc(i, "pc", 0)}]
+       [] ins.op = "printcmd" ->
+            [it |-> nxt([it EXCEPT !.out = @ \o <<CmdVal(cs), gv>>, !.ph = 0]), pr |-> pr, sh |-> sh,
+             reads |-> rd0 \cup {arl, ILoc(i, "g", ins.g)}, writes |-> {ILoc(i, "out", 0), ILoc(i, "ph", 0), ILoc(i, "pc", 0)}]
+       [] ins.op = "cmdgetline" ->
+            IF it.rd = "eof"
+            THEN \* the stream is open and at its end: no command is started, the variable keeps its value
+                 [it |-> nxt(it), pr |-> pr, sh |-> sh,
+                  reads |-> rd0 \cup {ILoc(i, "cmd", 0), ILoc(i, "rd", 0)}, writes |-> {ILoc(i, "pc", 0)}]
+            ELSE [it |-> nxt([it EXCEPT !.g[ins.g] = CmdVal(cs), !.rd = "eof", !.ph = 0]), pr |-> pr, sh |-> sh,
+                  reads |-> rd0 \cup {arl, ILoc(i, "rd", 0)},
+                  writes |-> {ILoc(i, "g", ins.g), ILoc(i, "rd", 0), ILoc(i, "ph", 0), ILoc(i, "pc", 0)}]
+       [] ins.op = "close" ->
+            [it |-> nxt([it EXCEPT !.rd = "closed"]), pr |-> pr, sh |-> sh,
+             reads |-> rd0 \cup {ILoc(i, "cmd", 0)}, writes |-> {ILoc(i, "rd", 0), ILoc(i, "pc", 0)}]
+       [] OTHER -> LET e == Exec1(pr, it, i) IN [it |-> e.it, pr |-> e.pr, sh |-> sh, reads |-> e.reads, writes |-> e.writes]
+
+\* running alone, on a pristine program, in a process of its own; c: the command string of the execution
+RECURSIVE SoloRun(_, _, _)
+SoloRun(pr, sh, it) == IF it.status = "done" THEN it ELSE LET e == ExecP(pr, sh, it, 0) IN SoloRun(e.pr, e.sh, e.it)
+SoloFor(body, c) == SoloRun(MkProgram(body), NoShell, [NewInterp EXCEPT !.cmd = c])
+Solo(body) == SoloFor(body, CmdOf(0))
 
 \* the interpreter an execution starts with: a new one -- or, under the ReuseInterp slip, the one the last finished
 \* execution left in `spare`, with everything restored but the random generator
 StartInterp(spare) ==
   IF ReuseInterp /\ spare.status = "done" THEN [NewInterp EXCEPT !.sc = spare.sc, !.nr = spare.nr] ELSE NewInterp
+\* ... of process i: with the command string of that process
+StartInterpOf(i, spare) == [StartInterp(spare) EXCEPT !.cmd = CmdOf(i)]
 
 \* ---- the properties, as predicates over (program, interp, acc) ----
 OwnLoc(loc, i)  == loc[1] = "interp" /\ loc[2] = i
 ProgLoc(loc)    == loc[1] = "prog"
 NoSharedWriteP(acc) == \A loc \in acc.writes : OwnLoc(loc, acc.p)
 NoForeignReadP(acc) == \A loc \in acc.reads : ProgLoc(loc) \/ OwnLoc(loc, acc.p)
+\* every finished execution holds what running alone WITH ITS OWN command string gives
 EquivalentP(body, its) ==
-  \A i \in DOMAIN its : its[i].status = "done" => (its[i].out = Solo(body).out /\ its[i].g = Solo(body).g)
+  \A i \in DOMAIN its : its[i].status = "done" =>
+     LET s == SoloFor(body, CmdOf(i)) IN its[i].out = s.out /\ its[i].g = s.g
 =============================================================================
